@@ -233,7 +233,7 @@ int radmsg2buf(struct radmsg *msg, uint8_t *secret, int secret_len, uint8_t **bu
     size = 20;
     for (node = list_first(msg->attrs); node; node = list_next(node))
         size += 2 + ((struct tlv *)node->data)->l;
-    if (size > 65535)
+    if (size > RAD_Max_Length)
         return -1;
     *buf = malloc(size);
     if (!*buf)
